@@ -12,7 +12,8 @@ import (
 	"github.com/nlnwa/whatwg-url/url"
 )
 
-var gopherSchemes = map[string]string{"ftp": "21", "file": "", "http": "80", "https": "443", "ws": "80", "wss": "443", "gopher": "70"}
+// two added schemes: one with a default port, one without (an empty entry: no port is ever elided for it, not even port 0)
+var gopherSchemes = map[string]string{"ftp": "21", "file": "", "http": "80", "https": "443", "ws": "80", "wss": "443", "gopher": "70", "ipfs": ""}
 var noFileSchemes = map[string]string{"ftp": "21", "http": "80", "https": "443", "ws": "80", "wss": "443"}
 
 // replacement sets: default set plus '|' (0x7C) and '~' (0x7E) minus '"' (0x22) - differs from the default on three code points
